@@ -18,6 +18,8 @@ def child():
     import importlib
     from pbt import canon
     if sys.argv[1] == '--case':
+        if os.environ.get('VERIF_PRELUDE'):
+            run_prelude(os.environ['VERIF_PRELUDE'])
         mod = importlib.import_module('pbt.props.' + sys.argv[2].lower())
         comp = [c for c in mod.COMPONENTS if c.name == sys.argv[3]][0]
         try:
@@ -26,6 +28,9 @@ def child():
         except runner.Violation as v:
             print(json.dumps({'ok': False, 'bucket': v.bucket, 'msg': v.message}))
         return
+    prelude = os.environ.get('VERIF_PRELUDE', '')
+    if prelude:
+        run_prelude(prelude)
     mod = importlib.import_module('pbt.props.' + sys.argv[1].lower())
     out = {'evaluations': 0, 'failures': {}, 'optimize': sys.flags.optimize}
     for name in sys.argv[2:]:
@@ -41,29 +46,78 @@ def child():
     print(json.dumps(out))
 
 
-def make_bulk(prop, components, flags=('-O', '-OO'), skip_buckets=()):
+def run_prelude(kind):
+    """things an application may legitimately do with the public modules *before* it
+    uses the catalogue - none of them may change what the library reports afterwards"""
+    from pamqp import base, commands, exceptions
+    if kind == 'bases':
+        # the accessors called on the abstract bases first
+        for cls in (base._AMQData, base.Frame, base.BasicProperties):
+            for attempt in (lambda: cls.attributes(), lambda: list(cls()),
+                            lambda: len(cls()), lambda: dict(cls()),
+                            lambda: 'x' in cls(), lambda: cls().__repr__(),
+                            lambda: cls().marshal() if cls is base.Frame else None):
+                try:
+                    attempt()
+                except Exception:
+                    pass
+    elif kind == 'subclass':
+        # application subclasses, in the base orders applications use
+        class Mixin:
+            pass
+
+        class AppError(Exception):
+            pass
+        n = 0
+        for exc in list(exceptions.CLASS_MAPPING.values()) + [
+                exceptions.AMQPSoftError, exceptions.AMQPHardError,
+                exceptions.AMQPError]:
+            for bases in ((exc,), (Mixin, exc), (exc, Mixin), (AppError, exc),
+                          (exc, AppError), (AppError, exc, exceptions.AMQPHardError),
+                          (AppError, exc, exceptions.AMQPSoftError)):
+                try:
+                    type('App%d' % n, bases, {})
+                    type('AppCode%d' % n, bases, {'value': 999, 'name': 'APP'})
+                except TypeError:
+                    pass
+                n += 1
+        for cls in list(commands.INDEX_MAPPING.values()) + [commands.Basic.Properties]:
+            for bases in ((cls,), (Mixin, cls)):
+                try:
+                    sub_ = type('App' + cls.__name__, bases, {})
+                    sub_.attributes()
+                except Exception:
+                    pass
+    else:
+        raise SystemExit('unknown prelude ' + kind)
+
+
+def make_bulk(prop, components, flags=('-O', '-OO'), skip_buckets=(), preludes=('',)):
     def bulk(tier, shard, nshards, rec):
         from pbt import canon
         from pbt.runner import REPO, VERIF
         env = dict(os.environ, PAMQP_REPO=REPO, PYTHONHASHSEED='0',
                    PYTHONDONTWRITEBYTECODE='1')
         env.pop('PYTHONOPTIMIZE', None)
-        for flag in flags:
-            p = subprocess.run([sys.executable, flag, '-B', '-m', 'pbt.optchild', prop] +
-                               list(components), cwd=VERIF, env=env,
-                               capture_output=True, text=True, timeout=1800)
+        for flag, prelude in [(f, p) for f in flags for p in preludes]:
+            env['VERIF_PRELUDE'] = prelude
+            cmd = [sys.executable] + ([flag] if flag else []) + \
+                ['-B', '-m', 'pbt.optchild', prop] + list(components)
+            p = subprocess.run(cmd, cwd=VERIF, env=env, capture_output=True,
+                               text=True, timeout=1800)
+            flag = (flag or 'python') + ('+' + prelude if prelude else '')
             if p.returncode != 0:
                 rec.harness_errors.append('interpreter %s child failed:\n%s' %
                                           (flag, p.stderr[-1500:]))
                 continue
             r = json.loads(p.stdout.strip().splitlines()[-1])
-            rec.count(r['evaluations'], r['evaluations'], 'python' + flag)
+            rec.count(r['evaluations'], r['evaluations'], 'child ' + flag)
             for bucket, f in r['failures'].items():
                 if (flag, bucket) in skip_buckets or bucket in skip_buckets:
                     rec.classes['skipped:%s:%s' % (flag, bucket)] += f['count']
                     continue
                 for _ in range(f['count']):
-                    rec.fail('python%s:%s' % (flag, bucket),
+                    rec.fail('child %s:%s' % (flag, bucket),
                              {'flag': flag, 'component': components[0],
                               'case': canon.from_json(f['case'])}, f['msg'])
             rec.sample({'flag': flag, 'components': list(components)})
@@ -81,8 +135,11 @@ def flagged(prop, inner_check):
         env = dict(os.environ, PAMQP_REPO=REPO, PYTHONHASHSEED='0',
                    PYTHONDONTWRITEBYTECODE='1')
         env.pop('PYTHONOPTIMIZE', None)
-        p = subprocess.run([sys.executable, case['flag'], '-B', '-m', 'pbt.optchild',
-                            '--case', prop, case['component'],
+        flag, _, prelude = case['flag'].partition('+')
+        env['VERIF_PRELUDE'] = prelude
+        p = subprocess.run([sys.executable] + ([flag] if flag.startswith('-') else []) +
+                           ['-B', '-m', 'pbt.optchild', '--case', prop,
+                            case['component'],
                             json.dumps(canon.to_json(case['case']))],
                            cwd=VERIF, env=env, capture_output=True, text=True,
                            timeout=600)
@@ -90,7 +147,7 @@ def flagged(prop, inner_check):
             raise HarnessError('interpreter-flag child failed: ' + p.stderr[-800:])
         r = json.loads(p.stdout.strip().splitlines()[-1])
         if not r['ok']:
-            raise Violation('python%s:%s' % (case['flag'], r['bucket']), r['msg'])
+            raise Violation('child %s:%s' % (case['flag'], r['bucket']), r['msg'])
     return check
 
 
